@@ -250,6 +250,15 @@ func (r *Run) symBinop(op token.Token, t types.Type, x, y value) value {
 			return r.fpBinop(op, x, y)
 		}
 		a, b := r.floatTerm(x), r.floatTerm(y)
+		if op == token.MUL && !a.isCon && !b.isCon {
+			// symbolic x symbolic product: if one factor is an integer of small range, case-split it
+			// (keeps the product linear instead of resorting to the uninterpreted rmul)
+			if v := r.smallIntFactor(a); v != nil {
+				a = v
+			} else if v := r.smallIntFactor(b); v != nil {
+				b = v
+			}
+		}
 		switch op {
 		case token.ADD:
 			return r.mkSymFloat(tc.Fl(tc.RBin("+", a, b)))
@@ -567,7 +576,24 @@ func (c *TermCtx) StrLen(t *Term) *Term {
 		}
 	}
 	r := c.Raw(SInt, "(strlen $0)", t)
+	if r.lo == nil {
+		c.axioms = append(c.axioms, fmt.Sprintf("(assert (>= (strlen %s) 0))", t.name))
+	}
 	r.lo = big.NewInt(0)
 	r.hi = big.NewInt(1 << 30)
 	return r
+}
+
+// smallIntFactor: t = to_real(i) with i an integer term whose interval has at most 17 values:
+// concretise i (forking over its feasible values) and return the constant.
+func (r *Run) smallIntFactor(t *Term) *Term {
+	if t.op != "to_real" || len(t.args) != 1 {
+		return nil
+	}
+	i := t.args[0]
+	if i.lo == nil || i.hi == nil || new(big.Int).Sub(i.hi, i.lo).Cmp(big.NewInt(16)) > 0 {
+		return nil
+	}
+	v := r.concretize(i)
+	return r.tc.Real(new(big.Rat).SetInt(v))
 }
